@@ -721,6 +721,10 @@ def run(pid, tier, repo, build, seed):
                         'witness': {'payload_hex': x['witness'].hex(), 'kind': x['kind'], 'signature': x['sig']}})
                 if disc:
                     res['obligations'] += len(keys) - 1
+        if pid == 'C10' or pid in SIG_PROPS:
+            ok_, info_ = g_signature_set_pinned(repo, None if pid == 'C10' else SIG_PROPS[pid])
+            add(ok_, info_, 'ground/signature-set', 'the signatures registered for %s are the published ones (spec/signatures.json: ids, patterns, anchors, wildcards, order): %s'
+                % ('every protocol' if pid == 'C10' else 'this protocol', {k: info_.get(k) for k in ('only_in_pinned', 'only_in_tree', 'payload_hex', 'outcome')}))
         if pid in ('C16', 'C12'):
             ok_, info = g_rpc_tcp_second_call(repo)
             add(ok_, info, 'ground/C16/tcp-second-call-xid',
@@ -961,6 +965,47 @@ def signature_set(repo):
     for s in sigs:
         s['begin'] = 'ANCHOR_BEGIN' in s['flags']; s['end'] = 'ANCHOR_END' in s['flags']; s['wild'] = 'WILDCARDS' in s['flags']
     return sigs
+
+SIG_PROPS = {'C13': (1,), 'C15': (2,), 'C18': (3, 4), 'C16': (5, 6), 'C17': (7, 8)}
+
+def g_signature_set_pinned(repo, ids=None):
+    """The published signature set (statement of C10) is pinned in spec/signatures.json: protocol ids, patterns, anchoring
+    and wildcard flags, in registration order.  The set read from the current tree must equal it (restricted to the
+    protocol ids of one responder when `ids` is given): a widened, tightened, added or removed signature changes which
+    payloads reach a responder.  Witness: a payload completing the differing signature, sent to the hook binary."""
+    pinned = json.load(open(os.path.join(VERIF, 'spec', 'signatures.json')))['signatures']
+    cur = [{'name': x['name'], 'id': x['id'], 'pattern_hex': x['pattern'].hex(), 'begin': x['begin'], 'end': x['end'], 'wild': x['wild']}
+           for x in signature_set(repo)]
+    key = lambda x: (x['id'], x['pattern_hex'], x['begin'], x['end'], x['wild'])
+    if ids is not None:
+        pinned = [x for x in pinned if x['id'] in ids]; cur = [x for x in cur if x['id'] in ids]
+    a = [key(x) for x in pinned]; b = [key(x) for x in cur]
+    info = {'obligation': 'ground/signature-set', 'pinned': len(a), 'current': len(b)}
+    if a == b:
+        return True, info
+    missing = [x for x in pinned if key(x) not in b]; extra = [x for x in cur if key(x) not in a]
+    info['only_in_pinned'] = missing[:4]; info['only_in_tree'] = extra[:4]
+    if not missing and not extra:
+        info['order_changed'] = True
+    # witness: a payload that completes the first differing signature ('*' -> 'A'), followed by "-x\r\n", over UDP
+    x = (missing or extra or [None])[0]
+    if x is not None:
+        pat = bytes.fromhex(x['pattern_hex'])
+        if x['wild']: pat = pat.replace(b'*', b'A')
+        payload = pat if x['end'] else pat + b'-x\r\n'
+        info['payload_hex'] = payload.hex(); info['completes'] = x['name']; info['expected'] = 'handled by protocol id %d' % x['id'] if x in missing else 'not handled by protocol id %d' % x['id']
+        try:
+            d = R.Driver(repo)
+            try:
+                d.cfg(mac=R.MAC)
+                r = d.frame(R.eth(R.MAC, R.PEER, 0x0800, R.ip4('10.0.0.77', '10.0.0.1', 17, R.udp(40000, 4444, payload))))
+            finally:
+                d.close()
+            info['outcome'] = r[0]; info['reply_payload_hex'] = r[1][42:].hex()[:128] if r[0] == 'reply' else None
+            info['frames_hex'] = [R.eth(R.MAC, R.PEER, 0x0800, R.ip4('10.0.0.77', '10.0.0.1', 17, R.udp(40000, 4444, payload))).hex()]
+        except Exception as e:
+            info['witness_error'] = str(e)[:200]
+    return False, info
 
 def product_explore(t, sigs):
     """Exhaustive exploration of (compiled table row) x (reference signature automaton) over byte-class
